@@ -366,9 +366,12 @@ every saved copy. Whether an assignment is global is decided *for that assignmen
 own `\global` prefix and the current `\globaldefs` (TeX §1211, §1214): there is no pending flag in
 the specification.
 
-Stated boundary (DESIGN section 6): `\let t=\undefinedname` leaves `t` alone here, as in the code
-(TeX would make `t` undefined); it is not a scoping question and the generators never do it on
-purpose (the harness tags the cases where it happens). -/
+Known finding C01-d: `\let t=\undefinedname` leaves `t` alone in the code (`Map::alias_control_sequence`
+does nothing when the source is undefined) whereas TeX gives `t` the undefined meaning, in the scope
+of the assignment (§1221). `Spec.step` / `Spec.run` below have the code's behaviour at exactly this
+point (so that the refinement can be stated for *every* program); `Spec.stepTeX` / `Spec.runTeX`
+(end of this file) are TeX's, and `Spec.noUndefLet` says that a program never executes such a
+`\let`: the two specifications coincide on those programs. -/
 
 structure Env where
   var : Var → Option Val
@@ -523,5 +526,47 @@ def Op.plain : Op → Bool
   | .define pre _ d => decide (pre = 0) && (match d with | .gmac _ => false | _ => true)
   | .selectFont pre _ => decide (pre = 0)
   | _ => true
+
+/-! ## TeX's `\let` from an undefined name (known finding C01-d) -/
+
+namespace Spec
+
+/-- Give `t` the undefined meaning. -/
+def unsetCmdEnv (t : CTarget) (e : Env) : Env :=
+  match t with
+  | .cs n => { e with cs := Snap.fupd e.cs n none }
+  | .act ch => { e with act := Snap.fupd e.act ch none }
+
+/-- `op` is a `\let` whose source has no meaning in `s`. -/
+def undefLet (s : Spec) : Op → Bool
+  | .define _ _ d => (resolveDef s.cur d).isNone
+  | _ => false
+
+/-- TeX's step: as `step`, except that `\let t=<undefined name>` makes `t` undefined, locally or
+globally like any other assignment (TeX §1221: `eq_define`/`geq_define` with `undefined_cs`). -/
+def stepTeX (s : Spec) (op : Op) : Spec × Out :=
+  match op with
+  | .define pre t d =>
+    match resolveDef s.cur d with
+    | none => (s.update (defScope d (effScope s.globalDefs pre)) (unsetCmdEnv t), .unit)
+    | some _ => s.step op
+  | _ => s.step op
+
+def runTeX : Spec → List Op → Spec × List Out
+  | s, [] => (s, [])
+  | s, op :: ops =>
+    let r := s.stepTeX op
+    if r.2.fatal then (r.1, [r.2])
+    else
+      let rs := runTeX r.1 ops
+      (rs.1, r.2 :: rs.2)
+
+/-- The program never executes a `\let` from an undefined name (decidable, computed along the run). -/
+def noUndefLet : Spec → List Op → Bool
+  | _, [] => true
+  | s, op :: ops =>
+    !(undefLet s op) && (if (s.step op).2.fatal then true else noUndefLet (s.step op).1 ops)
+
+end Spec
 
 end C01
